@@ -49,6 +49,37 @@ func fsrBytes(id uint16, num byte, name string) []byte {
 	return append(hdr, body...)
 }
 
+// fsrBytesPacked is fsrBytes with the ID string in BCD-plus (typ 1, codes are
+// nibbles) or 6-bit packed ASCII (typ 2, codes are 6-bit values).
+func fsrBytesPacked(id uint16, num byte, typ byte, codes []byte) []byte {
+	b := fsrBytes(id, num, "")
+	var data []byte
+	switch typ {
+	case 1:
+		data = make([]byte, (len(codes)+1)/2)
+		for i, v := range codes {
+			if i%2 == 0 {
+				data[i/2] |= (v & 0xf) << 4
+			} else {
+				data[i/2] |= v & 0xf
+			}
+		}
+	case 2:
+		data = make([]byte, (len(codes)*6+7)/8)
+		for i, v := range codes {
+			for k := 0; k < 6; k++ {
+				if v&(1<<k) != 0 {
+					data[(i*6+k)/8] |= 1 << ((i*6 + k) % 8)
+				}
+			}
+		}
+	}
+	b[5+42] = typ<<6 | byte(len(codes))
+	b = append(b, data...)
+	b[4] = byte(len(b) - 5)
+	return b
+}
+
 func histRepo() *ref.Repo {
 	return &ref.Repo{LastAdd: 1000, LastErase: 900, Recs: []ref.SDRRec{
 		{ID: 0x0001, Data: fsrBytes(0x0001, 1, "CPU Temp")},
@@ -167,12 +198,20 @@ func retryAlphabet(inSession bool, w *World) []histAnswer {
 			return t.BMC.Respond(rx, rx.CC, body)
 		}), Class: clsFinal, Own: true, BodyErr: true},
 		{Answer: env.LostReply(), Class: clsNothing},
+		// a UDP datagram with no payload at all
+		rawGarbage("zero-length-datagram", func(t *env.Transport, rx *ref.Rx) []byte { return []byte{} }),
 	}
 	if inSession {
 		a = append(a, rawGarbage("bad-signature", func(t *env.Transport, rx *ref.Rx) []byte {
 			d := t.BMC.Honest(rx)
 			if len(d) > 0 {
 				d[len(d)-1] ^= 0x01
+			}
+			return d
+		}), rawGarbage("signature-one-byte-short", func(t *env.Transport, rx *ref.Rx) []byte {
+			d := t.BMC.Honest(rx)
+			if len(d) > 0 {
+				d = d[:len(d)-1]
 			}
 			return d
 		}))
@@ -199,6 +238,9 @@ type histCfg struct {
 	Discover bool `json:"discover,omitempty"`
 	// FlipLen: length of the authentic reply, for bit-flip/truncation menus.
 	FlipLen int `json:"flip_len,omitempty"`
+	// UDP: run over the library's real transport and a loopback socket
+	// (newWorldUDP) instead of the in-memory transport.
+	UDP bool `json:"udp,omitempty"`
 }
 
 type opResult struct {
@@ -226,6 +268,7 @@ type histObs struct {
 	HS                 opResult // answers given during the handshake
 	SessOK             bool
 	KeysOK             bool
+	Infra              string // harness-side failure (socket could not be opened)
 }
 
 // histMenu builds the menu function for an alphabet name; checks register
@@ -263,6 +306,14 @@ func handshakeAlphabet(w *World) []histAnswer {
 			}
 			return d
 		}),
+		// a reply that is rejected only after its wrapper was read: session ID and
+		// sequence number non-zero (a late packet of an earlier session), length
+		// field beyond the data
+		rawGarbage("rejected-reply-with-nonzero-wrapper-ids", func(t *env.Transport, rx *ref.Rx) []byte {
+			d := ref.BuildPacket(ref.PTIPMI, false, 0x01020304, 0x2a, ref.BuildMsg(0x81, 0x07, 0, 0x20, 1, 0, 0x01, pattern(12, 1, 1)), nil)
+			return d[:len(d)-3]
+		}),
+		rawGarbage("zero-length-datagram", func(t *env.Transport, rx *ref.Rx) []byte { return []byte{} }),
 		{Answer: env.LostReply(), Class: clsNothing},
 		{Answer: env.LostRequest(), Class: clsNothing},
 		// a duplicate of an earlier session-less command reply is still in the
@@ -305,8 +356,18 @@ func handshakeAlphabet(w *World) []histAnswer {
 
 func runHistory(cfg histCfg, ch *env.Chooser) *histObs {
 	bcfg := histConfig(cfg.Suite)
-	w := newWorld(bcfg, ch, nil)
+	var w *World
+	if cfg.UDP {
+		var err error
+		if w, err = newWorldUDP(bcfg, ch); err != nil {
+			return &histObs{HandshakeErr: "harness: " + err.Error(), Infra: err.Error()}
+		}
+		defer w.Close()
+	} else {
+		w = newWorld(bcfg, ch, nil)
+	}
 	o := &histObs{W: w}
+	w.T.MaxAttempts = 300 // per operation, the handshake included: a correct retry loop ends long before
 	var conn bmc.Connection = w.Conn
 	var sess *bmc.V2Session
 	if cfg.InSession {
@@ -411,7 +472,7 @@ func runHistory(cfg histCfg, ch *env.Chooser) *histObs {
 	for pos, oi := range cfg.Ops {
 		op := histOps[oi]
 		curOp = pos
-		w.T.BeginOp()
+		w.beginOp()
 		r := &o.Results[pos]
 		r.First = len(w.T.Log)
 		nAnswersBefore := len(r.Answers)
